@@ -303,6 +303,26 @@ func (p *Program) verifyFunc(spec *FuncSpec) (u *Unit) {
 	if h := unitPosts[u.Name]; h != nil {
 		h(c, u)
 	}
+	for _, callee := range spec.ResultOf {
+		seen := false
+		for _, cr := range c.callResults {
+			if cr.Callee != callee || len(cr.Vals) == 0 {
+				continue
+			}
+			seen = true
+			for i, r := range c.rets {
+				if len(r.Vals) == 0 {
+					continue
+				}
+				g := c.defRaw("g", "Bool", and(r.St.guard, cr.Guard))
+				c.addObl(Obl{Name: fmt.Sprintf("%s/returns-result-of[%s]@ret%d", u.Name, callee, i+1), Kind: "ensures", Guard: g, Goal: sameTerm(r.Vals[0], cr.Vals[0]), Pos: c.pos(r.Pos),
+					Text: "on a path through the call of " + callee + " the function returns that call's result"})
+			}
+		}
+		if !seen {
+			c.addObl(Obl{Name: fmt.Sprintf("%s/returns-result-of[%s]/anchor", u.Name, callee), Kind: "ensures", Guard: "true", Goal: "false", Pos: u.File, Text: "the function calls " + callee})
+		}
+	}
 	for _, a := range spec.Asserts {
 		if !c.assertSeen[a] {
 			c.addObl(Obl{Name: fmt.Sprintf("%s/assert[%s]/anchor", u.Name, a.Label), Kind: "assert", Guard: "true", Goal: "false", Pos: u.File, Text: "the statement `" + a.At + "` the assertion is attached to exists in the function"})
